@@ -84,6 +84,7 @@ type HSDial struct {
 
 type HSScn struct {
 	Dials []HSDial `json:"dials"`
+	ShortRand int `json:"short_rand,omitempty"` // >0: crypto/rand.Reader returns at most this many bytes per Read (legal for an io.Reader)
 	SharedDialer bool `json:"shared_dialer,omitempty"` // all dials use one websocket.Dialer value and one tls.Config
 	// server-side class: a byzantine client against a real Upgrader
 	SrvReq    []byte    `json:"srv_req,omitempty"` // raw request bytes
@@ -126,6 +127,8 @@ type BackendLog struct {
 	SrvConn   *SimConn
 	Echoed    int
 	TLSErr    string
+	RdAtReturn, WrAtReturn int64 // server side: deadlines armed when Upgrade returned a connection
+	StateAtReturn          bool
 }
 
 // DialResult is what one Dial call produced.
@@ -170,6 +173,19 @@ type hsRunner struct {
 	shared      *websocket.Dialer
 	curDial     int
 	curTask     *Task
+}
+
+// shortReader returns at most max bytes per call, as an io.Reader may.
+type shortReader struct {
+	r   io.Reader
+	max int
+}
+
+func (s *shortReader) Read(p []byte) (int, error) {
+	if len(p) > s.max {
+		p = p[:s.max]
+	}
+	return s.r.Read(p)
 }
 
 // ---------------------------------------------------------------------------
@@ -257,6 +273,11 @@ func runHS(s *Sim, scn *Scenario, run *Run) {
 	h.ca = newCA("wsim test CA")
 	run.HS = &HSRun{}
 	hs := scn.HS
+	if hs.ShortRand > 0 {
+		old := rand.Reader
+		rand.Reader = &shortReader{r: old, max: hs.ShortRand}
+		defer func() { rand.Reader = old }()
+	}
 	if hs.Srv != nil {
 		h.runServerSide(hs)
 	} else {
@@ -930,6 +951,10 @@ func (h *hsRunner) upgradeSrv(hs *HSScn, w http.ResponseWriter, r *http.Request,
 		}
 		log.Upgraded = true
 		log.SrvConn = underlyingSim(conn.NetConn())
+		if log.SrvConn != nil {
+			rd, wr := log.SrvConn.Deadlines()
+			log.RdAtReturn, log.WrAtReturn, log.StateAtReturn = relTime(h.sim, rd), relTime(h.sim, wr), true
+		}
 		conn.Close()
 	}()
 }
